@@ -4,6 +4,7 @@ import core
 import progs
 import tie
 import lib_scope as L
+import lib_closure_forms as CF
 
 RULE = ("scope-operation programs over tokens {declare, assign, read (every third as object shorthand), open block, define "
         "function, loop, close, call, return closure, invoke result} on two names: every token sequence up to length 6 (quick) / "
@@ -11,6 +12,15 @@ RULE = ("scope-operation programs over tokens {declare, assign, read (every thir
         "define function, declare, assign, read, read the loop variable, close, keep the first closure in an outer variable, call the "
         "kept closure} (closures of one iteration called during later iterations and after the loop), random structured programs with nested "
         "functions returning closures that are invoked from scopes holding same-named variables, and progs.generate programs; "
+        "closure-forms grid (planted outputs): a function whose body reaches the enclosing variable through one syntactic form only "
+        "(36 read forms: interpolation slots alone / with text / nested literals / in nested functions, object shorthand, index, "
+        "property, spread, operand, condition, callee, for-iterable, pattern key, nested functions; 22 write forms: assignment, "
+        "op-assignment, destructuring, index / property / range targets, shadowing declarations) x 20 scopes (call local / "
+        "parameter / parameter pattern, anonymous and method calls, blocks, branches, loop iterations, top level, declared before "
+        "or after the function: then the same text uses the global until the declaration has run) x 6 wrappers x 4 function kinds, used while the scope is alive, after it ended, from a caller "
+        "holding its own same-named variable, two activations kept apart; recursion-levels grid: closures made at each level "
+        "of a recursion (14 positions of the recursive call: tail, in branches / loops / blocks, bound, operand, argument, alias, "
+        "spread, mutual; x 5 captured things x 4 ways of collecting x 4 ways of naming the function) keep their own level; "
         "each is run as written, with every variable renamed to its own fresh name at once, and with each variable renamed alone "
         "(object shorthand expanded); non-trivial = distinct (set of tokens / stream, outcome, scoping situations met: shadowing, "
         "assignment to an outer scope, captured local, capture of a later declaration, closure outliving its scope, recursion, loop)")
@@ -257,6 +267,21 @@ def run(ctx, model_ok):
                 rep.report(f"{' / '.join(tag)}: lexical scoping predicts status {st} and stdout {out!r}; the implementation gives status "
                            f"{c['status']} and stdout {c['stdout']!r}", "fixed-" + tag[0], src)
     tie.report_disagreements(ctx, [d for d in fdis if d[0] not in fbad], "scope_fixed")
+
+    # closures that reach the enclosing variable through one syntactic form; closures of every level of a recursion (planted outputs)
+    for label, cases in (("closure_forms", CF.programs(ctx.rng, thorough)), ("recursion_levels", CF.rec_programs())):
+        cimpl, cdis = tie.run(ctx, [c[1] for c in cases], label, model_ok, project=tie.proj_full)
+        cbad = set()
+        for (tag, src, out), r in zip(cases, cimpl):
+            ctx.nontrivial((label,) + tag[:5])
+            ctx.dist(f"{label}:{tag[1]}")
+            if (r["stdout"], r["status"]) != (out, "0"):
+                cbad.add(src)
+                rep.report(f"{label} ({' / '.join(str(t) for t in tag)}): lexical scoping predicts status 0 and stdout {out!r}; the implementation "
+                           f"gives status {r['status']} and stdout {r['stdout']!r} ({r['stderr'][:120]!r})", label, src, expect=(out, "0"))
+        tie.report_disagreements(ctx, [d for d in cdis if d[0] not in cbad], label)
+        k = len(cases) // 2
+        ctx.sample({"stream": label, "tag": list(cases[k][0]), "src": cases[k][1], "expected": cases[k][2], "impl": cimpl[k]})
 
     # random structured programs
     n = 60000 if thorough else 8000
